@@ -165,7 +165,7 @@ CHECKS = {
                 "structures, perturbed stage scores, injected empty stages) recorded by wrapping the stage functions from outside and replayed "
                 "through the model, stage by stage; independent Python oracle recomputes the combined scores, the within-gap set and the chain "
                 "consistency (structure <-> alleles <-> minors <-> diplotype) of every reported solution.",
-        "text_more": "The oracle explores structures the copy-number stage returned but the major stage never saw: none of their major solutions may lie within the gap. ",
+        "text_more": "Chain consistency (Props/C04Decision, readout_refines_major): for every feasible point of the refinement model and every major allele of the major solution, exactly as many reported minor-allele copies carry its name as the major solution has copies of it (with major_csat of C02 for structure vs alleles and diplotype_partition of C11 for the diplotype, the chain clauses are theorems). The oracle explores structures the copy-number stage returned but the major stage never saw: none of their major solutions may lie within the gap. ",
         "design_ref": "DESIGN.md section 10.2-10.3 (as built), section 4 (C10) (plan)",
         "note": "Chain consistency is checked by the oracle on every reported solution and follows from C02 major_csat / C04 at model level; "
                 "float truncation int(1000*score) is compared exactly unless the float and exact truncations differ (counted as hazard).",
